@@ -210,6 +210,13 @@ pub trait E1Oracle {
     /// that a query -> mutate -> query history is part of every explored transition (anything a
     /// query leaves behind in the graph - a memo, a lazily built index - must survive the mutation)
     fn warmup(&mut self, _g: &G, _alphabet: &Alphabet) {}
+    /// cheap digest of what the oracle's queries answer on `g`. It is mixed into the state key, so two
+    /// graphs with identical private snapshots but different observable answers (state kept outside the
+    /// fields the snapshot knows, e.g. a counter or memo added later) are different states and both get
+    /// the full oracle. On a correct library the digest is a function of the snapshot and merges nothing less.
+    fn fingerprint(&mut self, _g: &G, _alphabet: &Alphabet) -> u64 {
+        0
+    }
     fn transition(&mut self, _t: &Trans, _rec: &Recorder, _c: &mut Counters) {}
     fn state(&mut self, _s: &StateCtx, _rec: &Recorder, _c: &mut Counters) {}
 }
@@ -280,10 +287,11 @@ pub fn explore<O: E1Oracle, F: Fn() -> O + Sync>(p: &E1Params, rec: &Recorder, m
     for s in specs.iter_mut() {
         let g = G::new(s.specs.clone());
         let sn = snap(&g);
-        s.seen.lock().unwrap().insert(sn.key());
-        *s.states.lock().unwrap() = 1;
         let r = RefGraph::new(s.specs.clone());
         let mut o = mk();
+        let fp = guarded(|| o.fingerprint(&g, &alphabet)).unwrap_or(0xdead_beef) as u128;
+        s.seen.lock().unwrap().insert(sn.key() ^ (fp << 64 | fp));
+        *s.states.lock().unwrap() = 1;
         let mut c = Counters::default();
         o.state(&StateCtx { spec_idx: s.spec_idx, specs: &s.specs, alphabet: &alphabet, hist: &[], g: &g, r: &r, snap: &sn }, rec, &mut c);
         total.lock().unwrap().merge(&c);
@@ -377,7 +385,8 @@ pub fn explore<O: E1Oracle, F: Fn() -> O + Sync>(p: &E1Params, rec: &Recorder, m
                         // batch results are reachable by the single calls; checked as transitions only
                         continue;
                     }
-                    let k = after.key();
+                    let fp = guarded(|| o.fingerprint(&g, alphabet_ref)).unwrap_or(0xdead_beef) as u128;
+                    let k = after.key() ^ (fp << 64 | fp);
                     let is_new = s.seen.lock().unwrap().insert(k);
                     if is_new {
                         new_states += 1;
@@ -446,6 +455,15 @@ pub fn explore<O: E1Oracle, F: Fn() -> O + Sync>(p: &E1Params, rec: &Recorder, m
         res.max_depth_completed = p.depth;
     }
     res
+}
+
+pub fn fp_mix(h: &mut u64, x: u64) {
+    *h ^= x.wrapping_add(0x9E37_79B9_7F4A_7C15).wrapping_add(*h << 6).wrapping_add(*h >> 2);
+}
+pub fn fp_str(h: &mut u64, s: &str) {
+    for b in s.bytes() {
+        fp_mix(h, b as u64);
+    }
 }
 
 pub fn op_call_name(op: &Op) -> String {
